@@ -47,6 +47,10 @@ Definition flagmask_v34 (known : list string) (a : selarg) : Z :=
 Definition flagmask_v2 (known : list string) (a : selarg) : Z :=
   packbits (selection_bits known (selection_to_list a known)).
 
+(* the names the setter warns about ("%r is not a legitimate flag type"): one warning per occurrence *)
+Definition unknown_names (known : list string) (a : selarg) : list string :=
+  filter (fun n => negb (mem_string n known)) (selection_to_list a known).
+
 (* boolean flags from raw byte and mask *)
 Definition flag_bool (raw mask : Z) : bool := negb (Z.land raw mask =? 0).
 
@@ -83,7 +87,7 @@ Definition to_selarg (x : sx) : selarg :=
   | _ => SelList []
   end.
 
-(* (1 selarg)            -> (model_v34 spec_v34 model_v2 spec_v2)
+(* (1 selarg)            -> (model_v34 spec_v34 model_v2 spec_v2 number_of_warnings)
    (2 raw mask)          -> (model spec)
    (3 stored lost cal)   -> (model spec) *)
 Definition wire_16 (x : sx) : sx :=
@@ -91,7 +95,8 @@ Definition wire_16 (x : sx) : sx :=
   | L [I 1; a] =>
       let a := to_selarg a in
       L [I (flagmask_v34 flag_names a); I (spec_mask_v34 (spec_wanted a));
-         I (flagmask_v2 flag_names a); I (spec_mask_v2 (spec_wanted a))]
+         I (flagmask_v2 flag_names a); I (spec_mask_v2 (spec_wanted a));
+         I (Z.of_nat (List.length (unknown_names flag_names a)))]
   | L [I 2; I raw; I mask] => L [of_bool (flag_bool raw mask); of_bool (spec_flag_bool raw mask)]
   | L [I 3; I st; lost; cal] =>
       L [I (raw_flags_v4 st (to_bool lost) (to_bool cal)); I (spec_raw_flags_v4 st (to_bool lost) (to_bool cal))]
